@@ -177,3 +177,40 @@ func VerifC37_setSetGet() {
 	}
 	verifReached("c37-set-set-get")
 }
+
+// Headers of a consumed record are sub-slices of one shared buffer (that is what decoding a
+// fetch response produces), and applications shallow-copy header lists between records. "No
+// other header changes" has to hold for the BYTES too: Set(k, v) on such a record must not
+// write through the old value's backing array — neither into the neighbouring header that
+// follows it in the buffer nor into another record that shares the array.
+func VerifC37_setSharedBuffer() {
+	buf := verifNondetBytes("buf", 6)
+	mk := func() []kgo.RecordHeader {
+		return []kgo.RecordHeader{
+			{Key: verifNondetString("hkey", 1), Value: buf[0:2]},
+			{Key: verifNondetString("hkey", 1), Value: buf[2:4]},
+			{Key: verifNondetString("hkey", 1), Value: buf[4:6]},
+		}
+	}
+	hs := mk()
+	a := &kgo.Record{Headers: hs}
+	b := &kgo.Record{Headers: append([]kgo.RecordHeader(nil), hs...)} // shallow copy: same value arrays
+	snap := append([]byte(nil), buf...)
+	k := verifNondetString("k", 1)
+	v := verifNondetString("v", 1+verifChoose(3))
+	idx := -1
+	for i := range hs {
+		if idx < 0 && hs[i].Key == k {
+			idx = i
+		}
+	}
+	NewRecordCarrier(a).Set(k, v)
+	verifAssert(NewRecordCarrier(a).Get(k) == v, "after Set(k, v), Get(k) returns v")
+	for i := 0; i < 3; i++ {
+		if i != idx {
+			verifAssert(verifC37BytesEq(a.Headers[i].Value, snap[2*i:2*i+2]), "Set(k, v) leaves every other header's value bytes unchanged, also when header values share one buffer")
+		}
+		verifAssert(verifC37BytesEq(b.Headers[i].Value, snap[2*i:2*i+2]), "Set on one record does not change a record that shares header value arrays with it")
+	}
+	verifReached("c37-shared-buffer")
+}
